@@ -15,10 +15,12 @@ def instances(tier):
             for fmt in (0, 1):
                 if fmt and shape == 2: continue          # indented output is only claimed when text is a sole child
                 out.append({'entry': 'h_roundtrip', 'params': [shape, nb, fmt], 'bound': 'DOM shape %d with every %d-byte attribute value / text (& < > quotes, non-ASCII ...), %s output' % (shape, nb, 'indented' if fmt else 'compact')})
+    for dec, nd, at in ([(0, 5, 0), (0, 5, 1), (1, 7, 1), (0, 2, 0), (1, 3, 0)] if q else [(0, 5, 0), (0, 6, 0), (0, 6, 1), (1, 7, 0), (1, 7, 1), (0, 2, 0), (1, 3, 0), (0, 4, 1)]):
+        out.append({'entry': 'h_charref', 'params': [dec, nd, at], 'bound': 'numeric character reference with every %d %s digit(s) in %s' % (nd, 'decimal' if dec else 'hexadecimal', 'an attribute value' if at else 'element text')})
     return out
 
 
-BOUNDS = {'quick': 'raw bytes to length 3; all sequences of up to 3 tokens from a 27-token XML table (4 from 9), one spliced arbitrary byte; 4 DOM shapes to depth 3 with 1-2 symbolic bytes per attribute value / text node',
+BOUNDS = {'quick': 'raw bytes to length 3; all sequences of up to 3 tokens from a 27-token XML table (4 from 9), one spliced arbitrary byte; 4 DOM shapes to depth 3 with 1-2 symbolic bytes per attribute value / text node; numeric character references with every 5 hex / 7 decimal digits',
           'thorough': 'raw bytes to length 4; token sequences to 5; 2 symbolic bytes everywhere'}
 OUTSIDE = ['DOM trees deeper than 3 / more than 3 children', 'documents longer than 5 tokens', 'raw strings longer than 4 bytes', 'Xml::read/write through files']
 ASSUMPTIONS = ['__dynamic_cast modelled over the type-info objects clang emitted (single inheritance)']
